@@ -31,6 +31,7 @@ fn main() {
     let out = arg(&args, "--out");
     let seed = num(&args, "--seed", 1);
     let threads = num(&args, "--threads", 16) as usize;
+    let tier = arg(&args, "--tier").unwrap_or_else(|| "quick".to_string());
     match args[1].as_str() {
         "hist" => {
             let prop = args[2].clone();
@@ -43,6 +44,27 @@ fn main() {
             };
             let stats = mon_hist::run(&cfg);
             finish(&prop, stats, out, start.elapsed().as_secs_f64());
+        }
+        "c15" => {
+            let replay = arg(&args, "--replay").and_then(|p| std::fs::read_to_string(p).ok()).and_then(|t| serde_json::from_str(&t).ok());
+            let stats = ccmon::mon_c15::run(&tier, seed, threads, replay);
+            finish("C15", stats, out, start.elapsed().as_secs_f64());
+        }
+        "c16" => {
+            let stats = ccmon::mon_c16::run(&tier, seed, threads);
+            finish("C16", stats, out, start.elapsed().as_secs_f64());
+        }
+        "c17" => {
+            let stats = ccmon::mon_c17::run(&tier, seed, threads);
+            finish("C17", stats, out, start.elapsed().as_secs_f64());
+        }
+        "c07" => {
+            let stats = ccmon::mon_c07::run(&tier, seed, threads);
+            finish("C07", stats, out, start.elapsed().as_secs_f64());
+        }
+        "c12" => {
+            let stats = ccmon::mon_c12::run(&tier, seed);
+            finish("C12", stats, out, start.elapsed().as_secs_f64());
         }
         other => {
             eprintln!("unknown monitor {other}");
